@@ -282,6 +282,9 @@ def execute(item, only=None):
                     stats["calls"] += 3
                     if not close(r_c2, r_f2, 1.0, 1e-12):
                         rep("%s:history-dependence:period-change" % model, "after a charge with T=%r, charge(pilot=%r, T=%r) returns %r A on the continued object but %r A on a fresh battery at the same charge" % (T, second, T_o, r_c2, r_f2), r_c2, r_f2, ctx)
+                    # the power the continued object reports is the power of ITS LAST period (0 kW after a zero pilot)
+                    if not close(b_cont.current_charging_power * (T / 60.0), g_cont, cap, 1e-9):
+                        rep("%s:power-after-a-history%s" % (model, ":zero-pilot" if second == 0 else ""), "after charges at %r A and %r A the battery reports %r kW, its last period stored %r kWh in %r min" % (first, second, b_cont.current_charging_power, g_cont, T), b_cont.current_charging_power, g_cont / (T / 60.0), ctx)
                     if not close(g_cont, g_new, cap, 1e-12):
                         rep("%s:history-dependence" % model, "second charge gained %r kWh on the continued object but %r on a fresh battery at the same charge" % (g_cont, g_new), g_cont, g_new, ctx)
                     if nt:
